@@ -51,7 +51,10 @@
    parse_stable, a statement about the declaration parser (Proofs/StyleIdem.v,
    C20_idempotent_with_styles); the harness re-applies the real sanitizeStyles to every value it
    returned.
-   Missing: policies with patterned forced attributes other than UGC's; carried by the idempotence oracle on every generated case of
+   C20_class_decided: where no value pattern decides about rel, target, crossorigin or the URL
+   attribute, the condition of these theorems holds or the element has the F15 / F17 shape, so the
+   property's class is decided completely (under U5 and style_stable).
+   Missing: policies with patterned forced attributes other than UGC's (outside the class); carried by the idempotence oracle on every generated case of
    the stated policy class (link grid included), StrictPolicy and UGCPolicy. *)
 From Coq Require Import List NArith Bool.
 Import ListNotations.
@@ -187,6 +190,36 @@ Proof.
   intros M U R I p Hplain Hnc Hrw Hst Hps s Hel.
   apply (C20_idempotent_stable_elements3 M U R I p Hplain Hnc Hrw Hst).
   intros n a aps Hin Hp. split; [apply C20_style_filter_stable; exact Hps | exact (Hel n a aps Hin Hp)].
+Qed.
+
+(* the condition decides the class: on an element where no value pattern decides about rel, target, crossorigin or the URL
+   attribute (and which is not a sandboxed iframe), either the condition of the theorems above holds, or the element has one
+   of the two shapes on which the statement is refuted (F15: a with exactly one of rel / target allowed; F17: link with
+   crossorigin allowed and rel not) *)
+Theorem C20_class_decided : forall M U R (p : policy M U R) n aps,
+  in_class_b M U R p n aps = true ->
+  elem_stable3_b p n aps || f15_shape_b M U R p n aps || f17_shape_b M U R p n aps = true.
+Proof. intros M U R p n aps. exact (class_decided M U R p n aps). Qed.
+
+(* a statement about the policy alone, for policies without element patterns: a condition decided by computation on the
+   policy's tables, and then every input *)
+Definition c20_policy_ok {M U R} (p : policy M U R) : bool :=
+  match elsMatchingAndAttrs p with [] => true | _ => false end &&
+  forallb (fun e => elem_stable3_b p (fst e) (snd e)) (elsAndAttrs p).
+
+Theorem C20_policy_level : forall M U R (I : interp M U R) (p : policy M U R),
+  plain_policy I p -> allowComments p = false -> srcRewriter p = None ->
+  (forall raw u, valid_url I p raw = Some u -> valid_url I p u = Some u) -> parse_stable M U R I ->
+  c20_policy_ok p = true ->
+  forall s, sanitize_bytes I p (sanitize_bytes I p s) = sanitize_bytes I p s.
+Proof.
+  intros M U R I p Hplain Hnc Hrw Hst Hps Hok s. apply andb_true_iff in Hok as [Hnp Hall].
+  apply (C20_idempotent_with_styles M U R I p Hplain Hnc Hrw Hst Hps).
+  intros n a aps _ Hp.
+  assert (Hl : lookup n (elsAndAttrs p) = Some aps).
+  { unfold element_policies in Hp. destruct (lookup n (elsAndAttrs p)); [exact Hp|].
+    unfold match_regex, matching_entries in Hp. destruct (elsMatchingAndAttrs p); [|discriminate]. cbn in Hp. discriminate. }
+  rewrite forallb_forall in Hall. exact (Hall _ (lookup_In_gen _ _ _ Hl)).
 Qed.
 
 Lemma ugc_no_style_policies (I : interp smatcher unit unit) n : has_style_policies I ugc n = false.
@@ -391,6 +424,18 @@ Example C20_condition_separates :
   forallb (fun e => negb (elem_stable3_b c20_policy2 (fst e) (snd e))) (elsAndAttrs c20_policy2) = true.
 Proof. repeat split; vm_compute; reflexivity. Qed.
 
+Example C20_refuting_policies_have_the_shapes :
+  forallb (fun e => in_class_b _ _ _ c20_policy (fst e) (snd e) && f15_shape_b _ _ _ c20_policy (fst e) (snd e)) (elsAndAttrs c20_policy) = true /\
+  forallb (fun e => in_class_b _ _ _ c20_policy2 (fst e) (snd e) && f17_shape_b _ _ _ c20_policy2 (fst e) (snd e)) (elsAndAttrs c20_policy2) = true.
+Proof. split; vm_compute; reflexivity. Qed.
+
+Example C20_policy_level_instances :
+  c20_policy_ok c20_links_policy = true /\ c20_policy_ok c20_mixed_policy = true /\
+  c20_policy_ok c20_policy = false /\ c20_policy_ok c20_policy2 = false /\ c20_policy_ok ugc = false.
+Proof. repeat split; vm_compute; reflexivity. Qed.
+
+Print Assumptions C20_policy_level.
+Print Assumptions C20_class_decided.
 Print Assumptions C20_link_passes_idempotent.
 Print Assumptions C20_attrs_stable_no_surviving_url.
 Print Assumptions C20_ugc_no_surviving_url.
